@@ -13,7 +13,10 @@ never demands more than the statement.  Nothing here imports ural.  urllib.parse
 """
 import functools
 import re
+import re as _re
 from urllib.parse import urljoin as _std_urljoin
+
+_CONTROL = _re.compile("[\x00-\x1f\x7f-\x9f]")
 
 # keys named by the quantifier ("url, u, l, q, next, redirect, redirect_to, target, link, goto, ...") and the usual
 # relatives of the "..." ; plus any key that contains one of the stems below.  Look-alikes such as "xu", "uu", "ql"
@@ -24,8 +27,8 @@ REDIRECT_KEYS = frozenset([
 ])
 REDIRECT_STEMS = ("redir", "url", "uri", "link", "target", "goto", "next", "dest", "return", "orig", "continue")
 
-# generous reading of "AMP / Marfeel cache path": any occurrence, any case, leading dot optional
-CACHE_MARK_RE = re.compile(r"ampproject\.org/[cv]/|marfeelcache\.com/amp/|marfeel\.com/", re.I)
+# generous reading of "AMP / Marfeel cache path": any occurrence, any case, leading dot optional, the host with or without a port
+CACHE_MARK_RE = re.compile(r"ampproject\.org(?::\d*)?/[cv]/|marfeelcache\.com(?::\d*)?/amp/|marfeel\.com(?::\d*)?/", re.I)
 
 # a parameter name starts the string or follows '?' / '&', and contains none of ? & / # =
 _KEY_RE = re.compile(r"(?:^|(?<=[?&]))([^?&/#=]+)=")
@@ -124,19 +127,26 @@ def provenance_ok(s, result):
     for tail in cache_tails(s):
         if result == tail or result == "https://" + tail or result == "http://" + tail:
             return True
+    # "joined to the input": to the input as given, or to the input as every function of the library reads a URL (control characters removed,
+    # surrounding whitespace stripped) - RFC 3986 resolution knows nothing of a scheme hidden behind '\x85'
+    bases = [s]
+    cleaned = _CONTROL.sub("", s).strip()
+    if cleaned != s:
+        bases.append(cleaned)
     for dec in decs:
-        try:
-            if result == _std_urljoin(s, dec):
-                return True
-        except ValueError:
-            pass
-        # an input given without scheme is joined as the http URL it stands for (the scheme is not part of the answer then)
-        try:
-            j = _std_urljoin("http://" + s, dec)
-            if result == j or (j.startswith("http://") and result == j[7:]):
-                return True
-        except ValueError:
-            pass
+        for base in bases:
+            try:
+                if result == _std_urljoin(base, dec):
+                    return True
+            except ValueError:
+                pass
+            # an input given without scheme is joined as the http URL it stands for (the scheme is not part of the answer then)
+            try:
+                j = _std_urljoin("http://" + base, dec)
+                if result == j or (j.startswith("http://") and result == j[7:]):
+                    return True
+            except ValueError:
+                pass
     if undecidable:
         return None
     return False
